@@ -433,6 +433,81 @@ let run_metaset id toks =
   go toks;
   Printf.printf "M %s%s\nS %s%s\n" id (Buffer.contents mt) id (Buffer.contents st)
 
+(* kind N: mpt_node_locate / mpt_node_query on sibling lists with every kind of identifier *)
+let run_locate id toks =
+  let ident_of sp =
+    let body = String.sub sp 1 (String.length sp - 1) in
+    match sp.[0] with
+    | 'n' -> ident_of_name (bytes_of_hex body)
+    | 'z' -> ident_nameless (nat_of_int (int_of_string body))
+    | _ -> (match String.split_on_char '.' body with
+        | [cs; tag] -> (nat_of_int (int_of_string cs), IPtr (nat_of_int (int_of_string tag)))
+        | _ -> failwith "bad pointer identifier") in
+  let node_of tok = match String.index_opt tok '/' with
+    | None -> LNode (ident_of tok, [])
+    | Some k ->
+      let subs = List.filter (fun x -> x <> "") (String.split_on_char ';' (String.sub tok (k + 1) (String.length tok - k - 1))) in
+      LNode (ident_of (String.sub tok 0 k), List.map (fun x -> LNode (ident_of x, [])) subs) in
+  match toks with
+  | n :: rest ->
+    let (nodes, ops) = split_n (int_of_string n) rest in
+    let forest = List.map node_of nodes in
+    let ids = List.map lid' forest in
+    let mt = Buffer.create 256 and st = Buffer.create 256 in
+    let trail_str t = String.concat "." (List.map (fun i -> string_of_int (int_of_nat i)) t) in
+    let value_of t = "V" ^ venc (bytes_of_string ("v" ^ trail_str t)) in
+    let rec go = function
+      | [] -> ()
+      | "loc" :: stt :: pos :: ks :: r ->
+        let start = if stt = "~" then None else Some (nat_of_int (int_of_string stt)) in
+        let pos = int_of_string pos in
+        let lp = if pos > 0 then LFwd (nat_of_int pos) else if pos = 0 then LLast else LBwd (nat_of_int (- pos)) in
+        let body = String.sub ks 1 (String.length ks - 1) in
+        let key = match ks.[0] with
+          | 'd' -> let b = bytes_of_hex body in { kcs = None; kptr = nat_of_int 99; kmem = b; klen = nat_of_int (List.length b) }
+          | 'c' -> (match String.split_on_char '.' body with
+              | [cs; h] -> let b = bytes_of_hex h in
+                { kcs = Some (nat_of_int (int_of_string cs)); kptr = nat_of_int 99 (* the key's own buffer: no node's pointer *); kmem = b; klen = nat_of_int (List.length b) }
+              | _ -> failwith "bad key")
+          | 'p' -> (match String.split_on_char '.' body with
+              | [cs; tag] -> { kcs = Some (nat_of_int (int_of_string cs)); kptr = nat_of_int (int_of_string tag); kmem = []; klen = O }
+              | _ -> failwith "bad key")
+          | _ -> { kcs = None; kptr = O; kmem = []; klen = nat_of_int (int_of_string body) } in
+        (match node_locate ids start lp key with
+         | LFound i -> Buffer.add_string mt (Printf.sprintf " i%d" (int_of_nat i))
+         | LNone -> Buffer.add_string mt " n"
+         | LEfault -> Buffer.add_string mt " f");
+        (* specification: the k-th match in that direction; a NULL list or a NULL identifier with a length is refused *)
+        let refused = (start = None) || (key.kptr = O && key.klen <> O) in
+        (if refused then Buffer.add_string st " f"
+         else match start with
+           | Some s0 -> (match locate_kth ids s0 lp key with
+               | Some i -> Buffer.add_string st (Printf.sprintf " i%d" (int_of_nat i))
+               | None -> Buffer.add_string st " n")
+           | None -> ());
+        go r
+      | "q" :: sep :: str :: r ->
+        let sep = byte_of_hex sep in
+        let sb = bytes_of_hex str in
+        (match str_path (Some sb) sep N0 with
+         | Done p ->
+           (match lquery forest p with
+            | Done (t, p') ->
+              let ts = match t with None -> "-" | Some t -> trail_str t in
+              let v = match t with Some t when int_of_nat p'.plen = 0 -> value_of t | _ -> "n" in
+              Buffer.add_string mt (Printf.sprintf " q:%s|%d.%d|%s" ts (int_of_nat p'.poff - int_of_nat p.poff) (int_of_nat p'.plen) v)
+            | _ -> Buffer.add_string mt " F")
+         | _ -> Buffer.add_string mt " F");
+        let k = str_key (Some sb) sep in
+        let t = squery_l forest k in
+        let v = if t <> [] && List.length t = List.length k then value_of t else "n" in
+        Buffer.add_string st (Printf.sprintf " q:%s|%s" (if t = [] then "-" else trail_str t) v);
+        go r
+      | t :: _ -> failwith ("bad op " ^ t) in
+    go ops;
+    Printf.printf "M %s%s\nS %s%s\n" id (Buffer.contents mt) id (Buffer.contents st)
+  | _ -> ()
+
 let () =
   let ic = open_in Sys.argv.(1) in
   List.iter (fun line ->
@@ -440,6 +515,7 @@ let () =
     | id :: "P" :: r -> run_path false id r
     | id :: "Q" :: r -> run_path true id r
     | id :: "M" :: r -> run_metaset id r
+    | id :: "N" :: r -> run_locate id r
     | id :: "T" :: _ -> Printf.printf "M %s config.133.1.133.1\nS %s config.133.1.133.1\n" id id
     | id :: k :: r when k = "G" || k = "R" || k = "J" || k = "H" || k = "X" -> run_store k.[0] false id r
     | id :: k :: r when k = "Gc" || k = "Rc" || k = "Hc" || k = "Xc" -> run_store k.[0] true id r
